@@ -1,5 +1,37 @@
-import Secp.Hand.History
-/-! # C09 — placeholder: theorems are being added in this session -/
+import Secp.Proofs.HashToScalar
+/-!
+# C09 — HashToScalar is RFC 9380 hash_to_field over the scalar field
+
+Model of the code: `Hand.Group.hashToScalar H msg dst` = `Hand.Group.expandXMD` (b_0, b_1, xor chaining, l_i_b_str,
+DST′ with the oversize rule, zero-length DST → panic, modelled as `none`) followed by `Hand.Fn.hashToFieldElement`
+(the wide reduction `a + b·2^192 + c·2^384` over the generated scalar `ToMontgomery`, `Mul`, `Add` with the two
+hard-coded Montgomery constants). Specification: `Spec.Rfc9380` written from the RFC text. `H` is any hash function
+with 32-byte output (SHA-256 in the real program: a parameter here, see the trusted base).
+-/
 namespace C09
-theorem model_is_total : True := trivial
+open Spec Spec.Rfc9380
+
+/-- the expander of the code is `expand_message_xmd`, for every message, every non-empty DST (of length 1..255 and
+> 255) and every output length of at most 255 blocks -/
+theorem expander_is_rfc (H : Bytes → Bytes) (msg dst : Bytes) (len : Nat) (hd : dst ≠ []) (hl : (len + 31) / 32 ≤ 255) :
+    Hand.Group.expandXMD H msg dst len = some (expandMessageXmd H msg dst len) := expandXMD_eq H msg dst len hd hl
+
+/-- the 48-byte wide reduction returns the input integer modulo `n`, in canonical form, for all `2^384` inputs -/
+theorem wide_reduction (input : Bytes) (hb : IsBytes input) (hl : input.length = 48) :
+    sOk (Hand.Fn.hashToFieldElement input) ∧ sVal (Hand.Fn.hashToFieldElement input) = ((os2ip input : Nat) : ZMod N) :=
+  fn_hashToField input hb hl
+
+/-- **C09** -/
+theorem hashToScalar_spec (H : Bytes → Bytes) (hH : HashOK H) (msg dst : Bytes) (hd : dst ≠ []) :
+    ∃ s, Hand.Group.hashToScalar H msg dst = some s ∧ sOk s ∧ (sVal s).val = Rfc9380.hashToScalar H msg dst :=
+  _root_.hashToScalar_spec H hH msg dst hd
+
+/-- an empty or nil DST panics instead of hashing -/
+theorem empty_dst_panics (H : Bytes → Bytes) (msg : Bytes) : Hand.Group.hashToScalar H msg [] = none :=
+  hashToScalar_empty_dst H msg
+
+-- non-vacuity: a hash with 32-byte outputs exists
+example : HashOK (fun _ => List.replicate 32 7) := ⟨fun _ => by simp, fun _ x hx => by
+  rw [List.mem_replicate] at hx; omega⟩
+
 end C09
